@@ -141,11 +141,12 @@ class ThreadCtx:
 
 
 class OpRec:
-    __slots__ = ('obj', 'kind', 'op', 'args', 'case', 'loc', 'cases')
+    __slots__ = ('obj', 'kind', 'op', 'args', 'case', 'loc', 'cases', 'fp')
 
-    def __init__(self, obj, kind, op, args, case, loc, cases):
+    def __init__(self, obj, kind, op, args, case, loc, cases, fp=None):
         self.obj, self.kind, self.op, self.args = obj, kind, op, args
         self.case, self.loc, self.cases = case, loc, cases
+        self.fp = fp
 
     def desc(self):
         return (self.obj, self.kind, self.op, self.args)
@@ -193,6 +194,7 @@ class Runtime:
         self.caps = {}
         self.explorer = None
         self.limit_hit = None
+        self.use_fp = True
         self.error = None
         self.cenv = None
 
@@ -249,22 +251,24 @@ class Runtime:
             K.note(self, obj, op, iargs)
             loc, funcs = caller_loc(self.scn_files)
             self.funcs_seen.update(funcs)
+            fp = None
             if ctx.pos < len(ctx.script):
                 case = ctx.script[ctx.pos]
             else:
                 if not ctx.explore:
                     raise Unsupported(f'ancestor {ctx.name} ran past its prefix')
-                case = self.explorer.pick(ctx, obj, op, iargs, loc)
+                fp = fingerprint(ctx)[0] if self.use_fp else None
+                case = self.explorer.pick(ctx, obj, op, iargs, loc, fp)
                 if case == 'ALIAS':
                     self.aborting = True
                     raise Abort()
                 if case is None:
-                    ctx.trace.append(OpRec(obj._vname, obj._kind, op, iargs, None, loc, None))
+                    ctx.trace.append(OpRec(obj._vname, obj._kind, op, iargs, None, loc, None, fp))
                     self.aborting = True
                     raise Abort()
                 ctx.script.append(case)
             ctx.pos += 1
-            ctx.trace.append(OpRec(obj._vname, obj._kind, op, iargs, case, loc, None))
+            ctx.trace.append(OpRec(obj._vname, obj._kind, op, iargs, case, loc, None, fp))
             if len(ctx.trace) > self.max_ops:
                 self.limit_hit = f'thread {ctx.name}: more than {self.max_ops} operations on one path'
                 self.aborting = True
@@ -281,3 +285,148 @@ def reset_runtime():
     global RT
     RT.__init__()
     return RT
+
+
+# --------------------------------------------------------------------------------------------
+# thread-local state fingerprint: lets the explorer recognise that two different histories of a
+# thread have led to the same local state (same frames, same instruction, same local values), so
+# that the thread's tree becomes a graph.  Merges are validated by differential re-execution.
+# --------------------------------------------------------------------------------------------
+import gc as _gc
+import types as _types
+
+_ENGINE_DIR = os.path.dirname(os.path.abspath(__file__))
+
+
+class _KindProxy:
+    def __instancecheck__(self, o):
+        return type(o).__name__.endswith('Kind') and (type(o).__module__ or '').startswith('engine_b')
+
+
+class _KindMeta(type):
+    def __instancecheck__(cls, o):
+        return type(o).__name__.endswith('Kind') and (type(o).__module__ or '').startswith('engine_b')
+
+
+class Kind_(metaclass=_KindMeta):
+    pass
+_UNIQ = [0]
+
+
+def _uniq(tag):
+    _UNIQ[0] += 1
+    return ('uniq', tag, _UNIQ[0])
+
+
+_BY_NAME = (_types.FunctionType, _types.BuiltinFunctionType, _types.MethodDescriptorType,
+            _types.WrapperDescriptorType, _types.ModuleType, _types.CodeType, type,
+            _types.BuiltinMethodType, _types.MethodWrapperType, staticmethod, classmethod, property)
+
+
+def _abs(o, seen, depth):
+    if o is None or o is True or o is False:
+        return o
+    t = type(o)
+    if t in (int, float, str, bytes):
+        return o
+    nm = getattr(o, '_vname', None)
+    if nm is not None and isinstance(nm, str):
+        return ('p', nm)
+    i = id(o)
+    if i in seen:
+        return ('ref', seen[i])
+    if depth > 7:
+        return _uniq('deep')
+    if t in (tuple, list):
+        seen[i] = len(seen)
+        return (t.__name__,) + tuple(_abs(x, seen, depth + 1) for x in o)
+    if t is dict:
+        seen[i] = len(seen)
+        try:
+            return ('dict',) + tuple((_abs(k, seen, depth + 1), _abs(v, seen, depth + 1)) for k, v in o.items())
+        except RuntimeError:
+            return _uniq('dict')
+    if t in (set, frozenset):
+        try:
+            return ('set',) + tuple(sorted(repr(_abs(x, seen, depth + 1)) for x in o))
+        except Exception:
+            return _uniq('set')
+    if isinstance(o, _BY_NAME):
+        if t is _types.FunctionType and o.__closure__:
+            seen[i] = len(seen)
+            return ('fn', o.__qualname__) + tuple(_abs(c, seen, depth + 1) for c in o.__closure__)
+        return ('n', getattr(o, '__qualname__', None) or getattr(o, '__name__', None) or t.__name__)
+    if t is _types.MethodType:
+        seen[i] = len(seen)
+        return ('m', o.__func__.__qualname__, _abs(o.__self__, seen, depth + 1))
+    if t is _types.CellType:
+        try:
+            return ('cell', _abs(o.cell_contents, seen, depth + 1))
+        except ValueError:
+            return ('cell-empty',)
+    if t in (_types.GeneratorType, _types.CoroutineType, _types.AsyncGeneratorType):
+        seen[i] = len(seen)
+        fr = getattr(o, 'gi_frame', None) or getattr(o, 'cr_frame', None) or getattr(o, 'ag_frame', None)
+        if fr is None:
+            return ('gen-done', o.__qualname__)
+        running = getattr(o, 'gi_running', False) or getattr(o, 'cr_running', False)
+        if running:
+            return ('gen-running', o.__qualname__)
+        refs = _gc.get_referents(o)
+        return ('gen', o.__qualname__, fr.f_lasti) + tuple(
+            _abs(r, seen, depth + 1) for r in refs if not isinstance(r, (_types.CodeType, _types.FrameType)))
+    if isinstance(o, BaseException):
+        seen[i] = len(seen)
+        return ('exc', t.__qualname__, _abs(o.args, seen, depth + 1))
+    if t is _types.FrameType or t is _types.TracebackType:
+        return ('frame',)
+    red = None
+    if t.__module__ == 'builtins' and t.__name__.endswith('iterator') or t.__name__ in (
+            'range', 'enumerate', 'zip', 'map', 'filter', 'reversed', 'islice'):
+        try:
+            red = o.__reduce__()
+        except Exception:
+            red = None
+        if red is not None:
+            seen[i] = len(seen)
+            return ('it', t.__name__) + tuple(_abs(x, seen, depth + 1) for x in red[1:])
+        return _uniq(t.__name__)
+    if (t.__module__ or '').startswith('engine_b') and t.__name__ in (
+            'Runtime', 'Explorer', 'ThreadCtx', 'OpRec', 'Values', 'CEnv', 'Node', 'Tree') or isinstance(o, Kind_):
+        return ('engine', t.__name__)
+    d = getattr(o, '__dict__', None)
+    if d is not None and not isinstance(o, _types.ModuleType):
+        seen[i] = len(seen)
+        return ('o', t.__module__, t.__qualname__, _abs(d, seen, depth + 1))
+    if t.__name__ in ('SimpleNamespace',):
+        seen[i] = len(seen)
+        return ('ns', _abs(vars(o), seen, depth + 1))
+    return _uniq(t.__name__)
+
+
+def fingerprint(ctx, skip=2):
+    """Hashable abstraction of the calling thread's local state (all python frames between the
+    primitive and the thread's entry point, plus allocation counters and held locks)."""
+    f = sys._getframe(skip)
+    parts = []
+    seen = {}
+    while f is not None:
+        co = f.f_code
+        fn = co.co_filename
+        if fn.startswith(_ENGINE_DIR) and fn.endswith('explore.py'):
+            if co.co_name in ('run', 'on_thread_start'):
+                break
+            f = f.f_back
+            continue
+        try:
+            loc = f.f_locals
+            parts.append((co.co_qualname, f.f_lasti, tuple((k, _abs(v, seen, 0)) for k, v in loc.items())))
+        except Exception:
+            parts.append(_uniq('frame'))
+        f = f.f_back
+    parts.append(tuple(sorted(ctx.counters.items())))
+    parts.append(tuple(sorted((k, v) for k, v in ctx.extra.get('held', {}).items() if v)))
+    try:
+        return hash(tuple(parts)), tuple(parts)
+    except TypeError:
+        return None, None
